@@ -7,6 +7,7 @@ package c01
 import (
 	"fmt"
 	"strings"
+	"time"
 
 	"verif/engine/explore"
 	"verif/engine/runner"
@@ -27,7 +28,7 @@ func init() {
 			"payload contents are position-coded, not arbitrary; sizes come from the stated alphabet",
 		},
 		Units:          Units("C01", nil, ""),
-		QuickBudget:    70,
+		QuickBudget:    150,
 		ThoroughBudget: 900,
 	})
 }
@@ -166,6 +167,23 @@ func units(tier string, prop string, mon Monitor) []runner.Unit {
 			}
 		}})
 	}
+	// (3b) stalled readers: the application does not read for 4 s while the peer makes
+	// thousands of small writes, so that every receive structure of the session fills up
+	// (receive queue 4096 segments, receive channel 256) and the sender is pushed back
+	for bi, base := range []Params{
+		{CW: many(5000, 16), SW: []int{3}, RB: 4096, CTP: "nil", STP: "nil", NSess: 1},
+		{CW: []int{7}, SW: many(4700, 9), RB: 512, CTP: "pad0", STP: "nil", NSess: 1, NoWait: true},
+		{CW: many(4400, 5), SW: many(4400, 6), RB: 65536, CTP: "nil", STP: "nil", NSess: 1},
+	} {
+		base := base
+		base.Seed = int64(2500 + bi)
+		base.Prop = prop
+		base.ReadDelay = 4 * time.Second
+		base.Horizon = 120 * time.Second
+		us = append(us, runner.Unit{Name: fmt.Sprintf("stalled-reader-%d", bi), Cost: 6, Run: func(u *runner.U) {
+			RunOne(u, base, pats, explore.Bound{}, mon)
+		}})
+	}
 	// (4) schedules: all executions with <= Ds deviations on base scenarios
 	schedBases := []Params{
 		{CW: []int{1, 1025}, SW: []int{2000}, RB: 4096, CTP: "nil", STP: "nil", NSess: 2},
@@ -186,4 +204,12 @@ func units(tier string, prop string, mon Monitor) []runner.Unit {
 		}})
 	}
 	return us
+}
+
+func many(n, size int) []int {
+	out := make([]int, n)
+	for i := range out {
+		out[i] = size
+	}
+	return out
 }
